@@ -214,7 +214,7 @@ def run(ctx):
                 rp = G.RawProgram("corpus_" + re.sub(r"[^A-Za-z0-9]+", "_", f[:-5]), "", "corpus", f[:-5])
                 rp.dora = body
                 corpus.append(rp)
-    cres = K.build_results(tc, corpus, K.cache_dir(tc, "corpus", content_tag(corpus)), batch=False) if corpus else []
+    cres = K.build_results(tc, corpus, K.cache_dir(tc, "corpus", content_tag(corpus))) if corpus else []
     for p, res in zip(corpus, cres):
         judge(p, res, key_for)
     C.log("[c02] hostile+corpus %.0fs" % (time.time() - t0))
